@@ -216,7 +216,8 @@ ERR_SNIPPETS = [
     "char s[] = \"caf\xc3\xa9 \\t \x7f \x80\xff\";\n", "double d = 1e308 * 10; float g = 3.14159265358979f; double h = 0.1;\n",
     "int main(void) { return \"abc\"[1] + L'x' + u'y'; }\n",
     "int f(void) { return 1 +; }\n",
-    # known finding (known_findings.d/C20.json): use-after-free in pp.c expandfunc, result depends on the allocator (index % 3 == 0: also run with -E)
+    # regression input (known_findings.d/C20.json, fixed): use-after-free in pp.c expandfunc made the result depend on the
+    # allocator (index % 3 == 0: also run with -E; always given a memcheck row)
     "#define f(a) a\n#define t(a) a\nt(t(f)x)\n",
 ]
 
